@@ -9,7 +9,7 @@ SPEC_PART = dict(
            "image is backed by input bytes, the cost function bf_alloc_bytes equals the accepted array and is <= the input length for "
            "every long-form input (c14_bloom_ok_is_wf, c14_bloom_alloc_justified); well formed => every later operation is safe "
            "(c14_bloom_ok_is_usable); tie: structure-aware mutations (bit/byte flips in preamble and payload, boundary values of "
-           "num_hashes / num_longs / count, truncation at every offset, extension, form confusion, random bytes) through "
+           "num_hashes / num_longs / count, each numeric field of an otherwise valid image at each of its type boundaries, truncation at every offset, extension, form confusion, random bytes) through "
            "deserialize with allocation accounting, every accepted value queried, inserted into, inverted, forked, unioned / "
            "intersected with its fork, re-serialized, round-tripped, reset. Fixed on the way: fff8c98 (allocation before the "
            "length check), 6130c6a (stale bit count accepted). Known: the EMPTY-flag form allocates the announced all-zero array",
